@@ -121,7 +121,7 @@ def finish(ctx, level="model_checking", extra_cov=None):
         "coverage": cov, "assumptions": ctx.assumptions, "wall_s": round(time.time() - ctx.t0, 1),
         "violations": nviol,
     }
-    if not ctx.replay:
+    if not ctx.replay and not os.environ.get("PYSCRIPT_SRC"):     # evidence is about /repo only, never about a mutant copy
         os.makedirs(os.path.join(VERIF, "evidence"), exist_ok=True)
         with open(os.path.join(VERIF, "evidence", "%s.json" % prop), "w") as f:
             json.dump(ev, f, indent=1, default=str)
